@@ -72,24 +72,30 @@ def mkDiag (name : String) (level : Level := .error) (hs : List Highlight) : Dia
 def rawPeek (rest : List Char) (off : Nat := 0) (collect : Nat := 1) : Option (List Char) :=
   if off < rest.length then some ((rest.drop off).take collect) else none
 
+/-- `raw_peek(collect=3) in trigraphs` at the head of `l` -/
+def triAt (l : List Char) : Option Char :=
+  match l with
+  | '?' :: '?' :: c2 :: _ =>
+    (assoc Generated.trigraphs (String.ofList ['?', '?', c2])).bind (·.toList.head?)
+  | _ => none
+
+/-- `raw_peek(collect=2) in digraphs` at the head of `l` -/
+def diAt (l : List Char) : Option Char :=
+  match l with
+  | c0 :: c1 :: _ => (assoc Generated.digraphs (String.ofList [c0, c1])).bind (·.toList.head?)
+  | _ => none
+
 /-- one step of `peek`: trigraph (3), else digraph (2), else the raw character (1) -/
 def peek1 (rest : List Char) (off : Nat := 0) : Option (Char × Nat) :=
-  match rest.drop off with
-  | [] => none
-  | c0 :: tl =>
-    let tri : Option Char := match c0, tl with
-      | '?', '?' :: c2 :: _ =>
-        (assoc Generated.trigraphs (String.ofList ['?', '?', c2])).bind (·.toList.head?)
-      | _, _ => none
-    match tri with
-    | some t => some (t, 3)
+  match triAt (rest.drop off) with
+  | some t => some (t, 3)
+  | none =>
+    match diAt (rest.drop off) with
+    | some d => some (d, 2)
     | none =>
-      let di : Option Char := match tl with
-        | c1 :: _ => (assoc Generated.digraphs (String.ofList [c0, c1])).bind (·.toList.head?)
-        | [] => none
-      match di with
-      | some d => some (d, 2)
-      | none => some (c0, 1)
+      match rest.drop off with
+      | c :: _ => some (c, 1)
+      | [] => none
 
 /-- `peek(times=2)` as used by `parse_operator`: up to two translated characters. -/
 def peek2 (rest : List Char) : Option (List Char × Nat) :=
@@ -127,49 +133,58 @@ def takeWhileFrom (rest : List Char) (off : Nat) (p : Char → Bool) : List Char
 /-- Escape handling of `pop(use_escape=True)` once `char = '\'` (of raw size `sz`) is
 followed by `t ≠ '\n'`. Returns the characters of the escape, its raw size and the
 diagnostics added. -/
-def escape (s : LexSt) (sz : Nat) (t : Char) : List Char × Nat × List Diag :=
-  if simpleEscapes.contains t then (['\\', t], sz + 1, [])
+def escape (s : LexSt) (sz : Nat) (t : Char) : List Char × Nat × List Diag × Nat :=
+  if simpleEscapes.contains t then (['\\', t], sz + 1, [], 0)
   else if t == 'x' then
     let sz1 := sz + 1
     match rawPeek s.rest sz1 2 with
-    | none => (['\\', 'x'], sz1, [mkDiag "NO_HEX_DIGITS" .notice [⟨s.line, s.col + sz1 - 1, some 1, none⟩]])
+    | none => (['\\', 'x'], sz1, [mkDiag "NO_HEX_DIGITS" .notice [⟨s.line, s.col + sz1 - 1, some 1, none⟩]], 0)
     | some pk =>
       match pk with
-      | [] => (['\\', 'x'], sz1, [])   -- unreachable: rawPeek never returns an empty slice
+      | [] => (['\\', 'x'], sz1, [], 0)   -- unreachable: rawPeek never returns an empty slice
       | d0 :: _ =>
         if !isHexDigit d0 then
-          (['\\', 'x'], sz1, [mkDiag "NO_HEX_DIGITS" .notice [⟨s.line, s.col + sz1 - 1, some 1, none⟩]])
+          (['\\', 'x'], sz1, [mkDiag "NO_HEX_DIGITS" .notice [⟨s.line, s.col + sz1 - 1, some 1, none⟩]], 0)
         else
           let ds := pk.takeWhile isHexDigit
-          (['\\', 'x'] ++ ds, sz1 + ds.length, [])
+          (['\\', 'x'] ++ ds, sz1 + ds.length, [], 0)
   else if isOctal t then
     -- `raw_peek(offset=size)` re-reads from the character after the backslash spelling
     let ds := takeWhileFrom s.rest sz isOctal
-    ('\\' :: ds, sz + ds.length, [])
+    ('\\' :: ds, sz + ds.length, [], 0)
   else
-    (['\\', t], sz + 1, [mkDiag "UNKNOWN_ESCAPE" .notice [⟨s.line, s.col + sz, some 1, none⟩]])
+    -- a raw tab after the backslash moves to the next tab stop (3 - (col+sz-1) % 4 extra columns)
+    (['\\', t], sz + 1, [mkDiag "UNKNOWN_ESCAPE" .notice [⟨s.line, s.col + sz, some 1, none⟩]],
+     if t == '\t' then 3 - (s.col + sz - 1) % 4 else 0)
+
+/-- What `pop` does with the `(char, size)` the splice loop stopped on: the escape handling
+applies only to a backslash followed by something other than a newline.
+Result: characters returned, raw size, diagnostics, column adjustment. -/
+def escOf (useEscape : Bool) (s : LexSt) (c : Char) (sz : Nat) : List Char × Nat × List Diag × Nat :=
+  if c == '\\' && useEscape then
+    match peek1 s.rest sz with
+    | some (t, _) => if t != '\n' then escape s sz t else ([c], sz, [], 0)
+    | none => ([c], sz, [], 0)
+  else ([c], sz, [], 0)
+
+/-- The tail of one `pop` iteration: newline / tab bookkeeping and the advance. -/
+def finishPop (useSpaces : Bool) (s : LexSt) (e : List Char × Nat × List Diag × Nat) :
+    LexSt × Option (List Char) :=
+  let s := { s with diags := s.diags ++ e.2.2.1 }
+  if e.1 == ['\n'] then
+    ({ advance s e.2.1 with line := s.line + 1, col := 1 }, some e.1)
+  else if e.1 == ['\t'] then
+    let spaces := 4 - (s.col - 1) % 4
+    ({ advance s e.2.1 with col := s.col + spaces },
+     some (if useSpaces then List.replicate spaces ' ' else e.1))
+  else
+    ({ advance s e.2.1 with col := s.col + e.2.2.2 + e.2.1 }, some e.1)
 
 /-- One outer iteration of `Lexer.pop`.  Second component `none` = `UnexpectedEOF`. -/
 def popOne (useSpaces useEscape : Bool) (s : LexSt) : LexSt × Option (List Char) :=
   match spliceLoop (s.rest.length + 1) s with
   | (s, none) => (s, none)
-  | (s, some (c, sz)) =>
-    -- escape handling (only when the loop stopped on a backslash followed by a non-newline)
-    let (chars, sz, ds) : List Char × Nat × List Diag :=
-      if c == '\\' && useEscape then
-        match peek1 s.rest sz with
-        | some (t, _) => if t != '\n' then escape s sz t else ([c], sz, [])
-        | none => ([c], sz, [])
-      else ([c], sz, [])
-    let s := { s with diags := s.diags ++ ds }
-    if chars == ['\n'] then
-      ({ advance s sz with line := s.line + 1, col := 1 }, some chars)
-    else if chars == ['\t'] then
-      let spaces := 4 - (s.col - 1) % 4
-      ({ advance s sz with col := s.col + spaces },
-       some (if useSpaces then List.replicate spaces ' ' else chars))
-    else
-      ({ advance s sz with col := s.col + sz }, some chars)
+  | (s, some (c, sz)) => finishPop useSpaces s (escOf useEscape s c sz)
 
 /-- `pop(times=n)` (no escapes, no space expansion). -/
 def popN : Nat → LexSt → LexSt × Option (List Char)
